@@ -33,6 +33,12 @@ try:
                            env=dict(env, CARGO_TARGET_DIR=tdir), capture_output=True, text=True, timeout=1500)
         if c.returncode == 0:
             env["VX_CLI_BIN"] = os.path.join(tdir, "release", "varlink")
+    if pat.startswith("C19"):
+        tdir = os.path.join(build, "cert-target")
+        c = subprocess.run(["cargo", "build", "--release", "--offline", "-q", "-p", "varlink-certification"], cwd=repo,
+                           env=dict(env, CARGO_TARGET_DIR=tdir), capture_output=True, text=True, timeout=1500)
+        if c.returncode == 0:
+            env["VX_CERT_BIN"] = os.path.join(tdir, "release", "varlink-certification")
     r = subprocess.run([os.path.join(env["CARGO_TARGET_DIR"], "release", "vx-replay"), pat], env=env, capture_output=True, text=True, timeout=900)
     sys.stdout.write(r.stdout)
 except subprocess.TimeoutExpired:
